@@ -40,13 +40,21 @@ func (c09) Gen(seed uint64, run int, tier string) *Plan {
 	}
 	n := 3 + r.Intn(4)
 	p.Knobs["demons"] = n
+	if r.Intn(4) == 0 {
+		// duplicated requests: the report of a new pivot agent arrives twice at the same time (a
+		// retrying redirector), under a preemptive schedule
+		p.Policy = simrt.Policy{Name: "random", P: []float64{0.02, 0.1}[r.Intn(2)], RMWP: 0.3}
+	}
 	steps := 4 + r.Intn(14)
 	for i := 0; i < steps; i++ {
 		k := c09Kinds[r.Intn(len(c09Kinds))]
 		if r.Intn(3) == 0 {
 			k = "connect"
 		}
-		p.Actions = append(p.Actions, Action{Kind: k, A: r.Intn(n), B: r.Intn(n)})
+		if p.Policy.Name != "atomic" && r.Intn(4) == 0 {
+			k = "connect-new-dup"
+		}
+		p.Actions = append(p.Actions, Action{Kind: k, A: r.Intn(n), B: r.Intn(n), D: r.Intn(200)})
 	}
 	return p
 }
@@ -194,6 +202,23 @@ func (st *c09State) apply(a Action) {
 		}
 		st.faulted[X.NameID()] = true
 		res.Probe("link-table-write-faults")
+	case "connect-new-dup":
+		if st.newN >= 3 {
+			return
+		}
+		st.newN++
+		id := uint32(0x0d000000 + st.newN*0x111 + st.r.Intn(0xff))
+		ch := &world.Demon{ID: id, Key: randBytes(st.r, 32), IV: randBytes(st.r, 16), Meta: genMeta(st.r, 3), Parent: nil, Port: P.Port}
+		var pb world.PB
+		pb.Int32(world.PivotSMBConnect).Int32(1).Bytes(ch.InitPacket())
+		frame := P.Frame([]world.Pkg{{Cmd: world.CmdPivot, RID: 0, Body: pb.B}})
+		c1 := w.Send(world.AgentReq{Port: w.Cfg.HTTP[0].PortBind, URI: "/", Body: frame})
+		w.Sim.RunSteps(uint64(a.D))
+		call = w.Send(world.AgentReq{Port: w.Cfg.HTTP[0].PortBind, URI: "/", Body: frame})
+		w.Sim.Settle()
+		_ = c1
+		w.Demons = append(w.Demons, ch)
+		res.Probe("fault:duplicated-connect-report")
 	case "connect-new":
 		if st.newN >= 3 {
 			return
